@@ -9,16 +9,19 @@ A path that panics, or exceeds the step budget, is a candidate violation; it is 
 input the solver produced panics/hangs in the natively compiled crate."""
 from common import *
 
-ENTRIES = {'parse': 'parse', 'parse_chars': 'parse_chars', 'truth': 'parse_truth', 'budget': 'parse_budget',
+ENTRIES = {'multi': 'parse_multi', 'parse': 'parse', 'parse_chars': 'parse_chars', 'truth': 'parse_truth', 'budget': 'parse_budget',
            'stamp': 'parse_stamp', 'punct': 'parse_punct'}
 
 def run_entry(it, fmt, entry, chars):
+    if entry == 'multi':
+        import c08
+        return c08.parse_multi(it, fmt, [chars]).items[0]
     if entry == 'parse': return parse_enum(it, fmt, chars)
     if entry == 'parse_chars': return parse_enum_chars(it, fmt, chars)
     return parse_enum(it, fmt, chars, TARGETS[entry])
 
 def canon_for(entry, r):
-    inner = {'parse': canon_narsese, 'parse_chars': canon_narsese, 'truth': canon_truth, 'budget': canon_budget,
+    inner = {'multi': canon_narsese, 'parse': canon_narsese, 'parse_chars': canon_narsese, 'truth': canon_truth, 'budget': canon_budget,
              'stamp': canon_stamp, 'punct': lambda v, m=None: v.variant}[entry]
     return canon_result(r, inner)
 
@@ -37,7 +40,7 @@ def path(engine, ctx, params):
         out = {'status': 'ok', 'sample': {'fmt': params['fmt'], 'entry': entry, 'input': show(inp), 'outcome': r.variant, 'mir_steps': it.steps},
                'extra': {'fns': list(it.fn_seen)}}
         try:
-            out['extra']['native'] = {'op': ENTRIES[entry], 'args': [params['fmt'], hexs(inp)], 'interp': ['ok', canon_for(entry, r) if r.variant == 'Err' or not holes else canon_concrete(entry, r, m)]}
+            out['extra']['native'] = {'op': ENTRIES[entry], 'args': [params['fmt'], hexs(inp)], 'interp': ['ok', (lambda c: [c] if entry == 'multi' else c)(canon_for(entry, r) if r.variant == 'Err' or not holes else canon_concrete(entry, r, m))]}
         except Exception:
             pass
         return out
@@ -49,7 +52,7 @@ def path(engine, ctx, params):
         return {'status': 'violation', 'kind': 'steplimit', 'message': str(s), 'input': inp, 'where': '', 'fmt': params['fmt'], 'entry': entry, 'fns': list(it.fn_seen)}
 
 def canon_concrete(entry, r, model):
-    inner = {'parse': canon_narsese, 'parse_chars': canon_narsese, 'truth': canon_truth, 'budget': canon_budget,
+    inner = {'multi': canon_narsese, 'parse': canon_narsese, 'parse_chars': canon_narsese, 'truth': canon_truth, 'budget': canon_budget,
              'stamp': canon_stamp, 'punct': lambda v, m=None: v.variant}[entry]
     return canon_result(r, inner, model)
 
@@ -129,7 +132,7 @@ def main(tier, seed):
     from framework import Runner, Query
     R = Runner('C04', tier, seed); R.setup()
     quick = tier == 'quick'
-    n_all = {'parse': 2 if quick else 4, 'parse_chars': 1 if quick else 3, 'truth': 3 if quick else 4, 'budget': 3 if quick else 4,
+    n_all = {'parse': 2 if quick else 4, 'multi': 2 if quick else 3, 'parse_chars': 1 if quick else 3, 'truth': 3 if quick else 4, 'budget': 3 if quick else 4,
              'stamp': 3 if quick else 4, 'punct': 2 if quick else 3}
     R.assumptions += ['std APIs (Vec, String, HashSet, iterators, fmt, str::parse) are Python models validated against the native build on every explored path (traces_validated_against_impl) and on the repo\'s own string literals',
                       'HashSet iteration order modelled as insertion order', 'step budget 400000 MIR blocks per path stands for "terminates"',
